@@ -308,8 +308,8 @@ func (c *Ctx) c07Index(b BK) {
 					if so != "Load" && so != "Store" && so != "LoadAndDelete" && so != "Delete" && so != "LoadOrStore" && so != "Swap" {
 						continue
 					}
-					if ev.Frame != nil && ev.Frame.Lit != nil && !strings.HasSuffix(op, "evictLeast") {
-						continue // inside a Range callback: acts on iterated keys
+					if _, inRange := ev.Loop.(*ast.CallExpr); inRange && ev.Frame != nil && ev.Frame.Lit != nil && !strings.HasSuffix(op, "evictLeast") {
+						continue // inside a Range callback: acts on iterated keys (a literal called by a helper is part of the operation)
 					}
 					sites++
 					k := ev.Args[0]
